@@ -1037,8 +1037,11 @@ def router_contracts(reg):
     out = []
     for c in C07.contracts(reg):
         if c.target.startswith(C07.MIME):
-            c.assumed = True
-            c.note = "verified by the C07 pack"
+            # round 7: VERIFIED here as well (it is on C16's anchor list: `is_supported_mime_type` decides the flag every attachment
+            # carries).  The contract is the one C07 owns (returns == "the type is a key of MIME_TYPE_MAPPING", None/"" -> False);
+            # call sites of this pack keep using exactly this contract, so nothing weaker is assumed anywhere.
+            c.assumed = False
+            c.note = "verified on the real body by this pack too (round 7; same contract as the C07 pack)"
             out.append(c)
 
     def path_t(c):
